@@ -83,7 +83,7 @@ CHECKS = {
  'C15': dict(
     cat='model_checking', ref='DESIGN.md section 4 (C15)',
     text='Histories of derivation/evolution operations over a fresh pool of seven models: every pair of operation kinds (quick) '
-         'and kind-triples (one in quick, all in thorough) with every target/keyword-set choice explored by the engine and the '
+         'and kind-triples (one in quick, twelve in thorough) with every target/keyword-set choice explored by the engine and the '
          'numeric arguments symbolic; after each step z3 compares a structural snapshot (public attributes incl. symbolic ones, '
          'ordered fields by identity, flat field order, validation verdict on a symbolic probe) of every other model with its '
          'previous snapshot, and checks that derived models / late fields carry exactly the requested constraints.',
